@@ -640,6 +640,9 @@ finish:
       if (impl->mmslots == ns) {
         impl->mmslots = 0;
       }
+      if (ns->len) { // mapped already (the overlap test comes after the mapping)
+        munmap(ns->mmap, ns->len);
+      }
       free(ns);
     }
   }
